@@ -268,6 +268,9 @@ def instance_pool(ctx, cirq, rng):
     pool.append(('gen/circuit-op-expr-reps', cirq.CircuitOperation(cirq.FrozenCircuit(cirq.X(qs[0])), repetitions=sympy.Symbol('r') * 2 + 1, use_repetition_ids=False)))
     pool.append(('gen/duration-symbolic', cirq.Duration(nanos=sympy.Symbol('t'))))
     pool.append(('gen/wait-shapes', [cirq.WaitGate(cirq.Duration(nanos=2), num_qubits=2), cirq.WaitGate(cirq.Duration(nanos=2), qid_shape=(3,)), cirq.WaitGate(cirq.Duration(picos=sympy.Symbol('t')))]))
+    pool.append(('gen/noise-prepend', cirq.ConstantQubitNoiseModel(cirq.bit_flip(0.1), prepend=True)))
+    pool.append(('gen/noise-append', cirq.ConstantQubitNoiseModel(cirq.amplitude_damp(0.2))))
+    pool.append(('gen/noise-like', cirq.NoiseModel.from_noise_model_like(cirq.depolarize(0.05))))
     pool.append(('gen/symbolic', (cirq.X ** sympy.Symbol('a')).on(qs[0])))
     pool.append(('gen/expr', cirq.Circuit(cirq.rz(sympy.Symbol('a') * 2 + sympy.pi / 3).on(qs[0]))))
     pool.append(('gen/key-condition', cirq.X(qs[0]).with_classical_controls(cirq.KeyCondition(cirq.MeasurementKey('a'), 0))))
@@ -306,6 +309,16 @@ def check_values(ctx, cirq, pool, rng):
                 ctx.report_witness(f'json:hash:{cls}', 'the value read back is equal but hashes differently', dict(rep, impl_out=[hb], spec_out=[hx]))
             if repr(back) != repr(x) and 'object at 0x' not in repr(x):
                 ctx.count('repr_differs_after_roundtrip', cls)
+            # equal behaviour: a noise model read back produces the same noisy circuit
+            if isinstance(x, cirq.NoiseModel):
+                probe = cirq.Circuit(cirq.X(cirq.LineQubit(0)), cirq.CZ(cirq.LineQubit(0), cirq.LineQubit(1)))
+                try:
+                    same = probe.with_noise(x) == probe.with_noise(back)
+                except Exception:
+                    same = True
+                ctx.count('check', 'json-behaviour:noise-model')
+                if not same:
+                    ctx.report_witness(f'json:behaviour:{cls}', 'a noise model read back from JSON is equal but produces a different noisy circuit', dict(rep, impl_out=[repr(probe.with_noise(back))[:600]], spec_out=[repr(probe.with_noise(x))[:600]]))
         # nested in containers and written twice in one document
         try:
             nested = {'k': [x, (x,)], 'again': x}
